@@ -12,3 +12,5 @@ import WS.Props.C18
 import WS.Props.C19
 import WS.Props.C20
 import WS.Props.C08
+import WS.Props.C17
+import WS.Props.C12
